@@ -425,3 +425,119 @@ Definition sh_example (k : nat) : nat * list (list nat) :=
 Definition sh_stream (k : nat) (ops : list (nat * rd_op)) : list nat :=
   concat (map snd (concat (outs_of k ops (sh_trace sh_example (sh_init sh_example 2) ops)))).
 Definition ops_of (k : nat) (ops : list (nat * rd_op)) : list (nat * rd_op) := filter (fun o => fst o =? k) ops.
+
+
+
+(* ---------- a pass in which loads FAIL ----------
+   The source may raise while a chunk is loaded (MemoryError, OSError, TimeoutError, ... out of h5py / pyarrow / astropy /
+   pandas / the random generator).  A pass is then a PARTIAL function of the source: it ends (StopIteration), or the
+   exception reaches the caller after some chunks were delivered.  `fails a` says whether the a-th load ATTEMPTED in the
+   pass fails.  Two policies keep the statement of the property and are modelled by one function: b = 0 retries left is
+   the code (DataChunkReader.__next__ does not catch anything: the exception propagates); b > 0 repeats THE SAME request
+   (the state is the one before the failed attempt) up to b times in the pass. *)
+Inductive fres (Rq : Type) : Type :=
+| FDone (out : list Rq)       (* the pass ended with StopIteration; out = everything delivered *)
+| FRaised (out : list Rq)     (* the exception of a failed load reached the caller; out = delivered before it *)
+| FFuel (out : list Rq).      (* the bound on the number of attempted loads was reached (not an outcome of a reader) *)
+Arguments FDone {Rq} out.
+Arguments FRaised {Rq} out.
+Arguments FFuel {Rq} out.
+Definition f_out {Rq} (r : fres Rq) : list Rq := match r with FDone o | FRaised o | FFuel o => o end.
+Definition f_cons {Rq} (x : Rq) (r : fres Rq) : fres Rq :=
+  match r with FDone o => FDone (x :: o) | FRaised o => FRaised (x :: o) | FFuel o => FFuel (x :: o) end.
+Definition f_raised {Rq} (r : fres Rq) : bool := match r with FRaised _ => true | _ => false end.
+
+Section FaultyPass.
+  Context {St Rq : Type} (next : St -> option (St * Rq)) (fails : nat -> bool).
+  (* fuel bounds the loads attempted, b = retries left, a = loads attempted so far *)
+  Fixpoint f_pass (fuel b : nat) (st : St) (a : nat) : fres Rq :=
+    match fuel with
+    | O => match next st with None => FDone [] | Some _ => FFuel [] end
+    | S f => match next st with
+             | None => FDone []
+             | Some (st1, r) =>
+                 if fails a
+                 then match b with
+                      | O => FRaised []                      (* propagate *)
+                      | S b' => f_pass f b' st (S a)          (* the same state: the same request again *)
+                      end
+                 else f_cons r (f_pass f b st1 (S a))
+             end
+    end.
+End FaultyPass.
+
+(* the variant that is NOT the code (offset readers): a failed load is answered by halving the chunk size and rewinding
+   the position - which __next__ had already advanced by the OLD chunk size - by the NEW one; the pass goes on from the
+   middle of the failed chunk.  State: (chunk size, start of the next request). *)
+Fixpoint f_pass_halve (fails : nat -> bool) (fuel n cs off a : nat) : fres (nat * nat) :=
+  match fuel with
+  | O => if n <=? off then FDone [] else FFuel []
+  | S f => if n <=? off then FDone [] else
+             if fails a
+             then (if cs <=? 1 then FRaised []
+                   else let cs' := Nat.max 1 (cs / 2) in f_pass_halve fails f n cs' (off + cs - cs') (S a))
+             else f_cons (off, Nat.min (off + cs) n) (f_pass_halve fails f n cs (off + cs) (S a))
+  end.
+
+(* --- checker for the tie.
+   fa      = the attempts (numbered within the pass: chunks delivered so far + loads failed so far) at which the harness
+             made the source raise
+   raised  = the exception reached the caller of the pass
+   rows    = the rows of every delivered chunk (None where the chunks are not seen: get_probe, catalog creation)
+   att     = what the source was asked, load by load, with `true` where that load failed
+   The requests of a healthy pass: slices (data frame / HDF5 / FITS), sizes (random generator), row groups (Parquet). *)
+Definition u_requests (c : rcfg) : list (nat * nat) :=
+  match c with
+  | COff true n cs => slices n cs
+  | COff false n cs => map (fun se => (0, slice_len se)) (slices n cs)
+  | CPq _ g => map (fun i => (i, S i)) (seq 0 (length g))
+  end.
+(* every load asks for what the healthy pass asks next; a failed load does not advance; Some left = requests never made *)
+Fixpoint attempts_left (healthy : list (nat * nat)) (att : list ((nat * nat) * bool)) : option (list (nat * nat)) :=
+  match att with
+  | [] => Some healthy
+  | (r, failed) :: rest =>
+      match healthy with
+      | [] => None
+      | h :: hs => if pair_eqb r h then attempts_left (if failed then healthy else hs) rest else None
+      end
+  end.
+Definition fails_at (fa : list nat) (i : nat) : bool := existsb (Nat.eqb i) fa.
+Definition rows_eqb (ids : bool) (a b : list nat) : bool := if ids then nlist_eqb a b else length a =? length b.
+Definition fres_eqb (ids : bool) (r : fres (list nat * list nat)) (raised : bool) (rows : list (list nat)) : bool :=
+  match r with
+  | FDone out => negb raised && list_eqb (rows_eqb ids) (map snd out) rows
+  | FRaised out => raised && list_eqb (rows_eqb ids) (map snd out) rows
+  | FFuel _ => false
+  end.
+(* the statement on the observation alone: the delivered chunks are the records of the source from the start, in order,
+   every chunk exactly as long as requested (cs, the last one the remainder); returns the position reached *)
+Fixpoint stream_exact (c : rcfg) (pos : nat) (rows : list (list nat)) : bool * nat :=
+  match rows with
+  | [] => (true, pos)
+  | r :: t =>
+      let len := length r in
+      let ok := (1 <=? len) && (len =? Nat.min (u_cs c) (u_n c - pos)) &&
+                (negb (u_ids c) || nlist_eqb r (firstn len (skipn pos (u_rows c)))) in
+      let '(b, p) := stream_exact c (pos + len) t in (ok && b, p)
+  end.
+(* flags: [delivered chunks and outcome = the model under one of its policies (0 .. all failures retried);
+           the statement: a pass that ended delivered the source exactly once in the requested chunks, a pass that
+           raised delivered a prefix of that;
+           every load asked for the request of the healthy pass that was due, none was skipped] *)
+Definition c18_fault_case (c : rcfg) (fa : list nat) (raised : bool) (rows : option (list (list nat)))
+                          (att : list ((nat * nat) * bool)) : nat :=
+  let fuel := u_n c + length fa + 1 in
+  code [match rows with
+        | None => true
+        | Some rw => existsb (fun b => fres_eqb (u_ids c) (f_pass (u_next c) (fails_at fa) fuel b (u_init c) 0) raised rw)
+                             (seq 0 (S (length fa)))
+        end;
+        match rows with
+        | None => true
+        | Some rw => let '(ok, pos) := stream_exact c 0 rw in ok && (raised || (pos =? u_n c))
+        end;
+        match attempts_left (u_requests c) att with
+        | None => false
+        | Some lft => raised || match lft with [] => true | _ => false end
+        end].
